@@ -67,7 +67,7 @@ def m_contains(a, b):
     return ("bool", True)
 
 
-MODEL = {"size#bad": m_err, "contains#bad": m_err, "string#bad": m_err, "h0": m_h0, "h1": m_h1, "h2": m_h2, "h3": m_h3, "hs": m_hs, "hb": m_hb, "herr": m_err, "hval": m_err, "htyp": m_err, "size": m_size, "contains": m_contains}
+MODEL = {"size#bad": m_err, "contains#bad": m_err, "string#bad": m_err, "h0": m_h0, "h1": m_h1, "h2": m_h2, "h3": m_h3, "hs": m_hs, "hb": m_hb, "herr": m_err, "hval": m_err, "htyp": m_err, "hvsub": m_err, "htsub": m_err, "size": m_size, "contains": m_contains}
 BASE = ["h0", "h1", "h2", "h3", "hs", "hb", "herr", "hval", "htyp"]
 
 
@@ -198,7 +198,7 @@ def programs():
     add("fb(a) ? 1 : 2", Node("cond", "int", B(X), I(1), I(2)), {"hb": (1, 1)})
     # errors from host functions
     T_, F_ = Node("lit", "bool", ("bool", True)), Node("lit", "bool", ("bool", False))
-    for en in ("herr", "hval", "htyp"):
+    for en in ("herr", "hval", "htyp", "hvsub", "htsub"):
         Eb = Node("call", "bool", en, X)
         add(f"{en}(a)", Eb, {en: (1, 1)})
         add(f"{en}(a) || true", Node("bin", "bool", "||", Eb, T_), {en: (0, 1)})
